@@ -362,6 +362,27 @@ int main(void)
     for (size_t i = 0; i < b->length && i < a->length; i++)
       __CPROVER_assert(same_entry_text(&a->file_entry[i], &b->file_entry[i]),
                        "C05: sections, keys and values unchanged by a comment/blank line");
+#if KIND == K_COMMENT && defined(FOLLOW)
+    /* C17: the comment line is attached to the next entry, after the comment lines already pending */
+    if (a->length == b->length && a->length >= 1) {
+      const char *cb = a->file_entry[a->length - 1].comment_before_key;
+      __CPROVER_assert(cb != NULL, "C17: the text of a comment line directly preceding an entry is kept");
+      if (cb) {
+        size_t k = 0;
+        bool ok = true;
+#ifdef CTX_PENDING
+        const char *pend = CTX_PENDING;
+        for (; pend[k]; k++) if (cb[k] != pend[k]) ok = false;
+        if (ok && cb[k] != '\n') ok = false;
+        k++;
+#endif
+        size_t m = 0;
+        for (; ok && s.cs + m < s.ce; m++) if (cb[k + m] != line[s.cs + m]) ok = false;
+        if (ok) ok = cb[k + m] == 0;
+        __CPROVER_assert(ok, "C17: comment lines directly preceding an entry are reported in order, each with the text after its comment character");
+      }
+    }
+#endif
   }
 #endif
 
